@@ -695,7 +695,9 @@ let compare_obs (ts : tstate) (m : mon) (o : obs) =
   List.iter (fun r -> if not (List.mem r fresh) then bad (Printf.sprintf "future %d" (fst r)) ("impl resolved it with {" ^ snd r ^ "}, model did not")) impl;
   ts.seen_results <- fresh @ ts.seen_results;
   (* outcome *)
-  List.iter (fun mn -> if mn.n_out <> Model.Ok then bad (Printf.sprintf "node %s" (ns mn.n_id)) "model predicts a fatal error or panic here") w.w_nodes
+  (* a node frozen at a storage write executes nothing more: what the model computes for it after the freeze (it lets
+     the section run on with writes suppressed) is not the goroutine's behaviour and is discarded by the crash *)
+  List.iter (fun mn -> if mn.n_out <> Model.Ok && not mn.n_frozen then bad (Printf.sprintf "node %s" (ns mn.n_id)) "model predicts a fatal error or panic here") w.w_nodes
 
 (* ---- dumping the model-level labels of a trace as a Coq list (for refutation witnesses) ---- *)
 let dump_labels : Buffer.t option ref = ref None
